@@ -1,10 +1,15 @@
 #!/bin/bash
 # tools/seedrun.sh <patch> <check id>...: applies a seeded change to /repo, runs the quick checks, reverts.
 p="$1"; shift
-git -C /repo apply "$p" || { echo "PATCH DOES NOT APPLY to /repo"; exit 2; }
+# /repo is shared with background thorough runs: take turns
+touch /tmp/seed/REPO_BUSY
+while [ -e /tmp/seed/THOROUGH_RUNNING ]; do sleep 10; done
+trap 'git -C /repo checkout -- .; [ -n "$SEED_HOLD" ] || rm -f /tmp/seed/REPO_BUSY' EXIT
+git -C /repo apply "$p" || { echo "PATCH DOES NOT APPLY to /repo"; rm -f /tmp/seed/REPO_BUSY; exit 2; }
 for c in "$@"; do
   out=$(cd /verif && timeout 1500 ./check $c 2>&1); code=$?
   echo "== $c exit=$code"; echo "$out" | grep -E "^VIOLATION|^KNOWN|MACHINERY" | head -3 | cut -c1-220; echo "$out" | grep -A1 "^VIOLATION" | grep -v "^VIOLATION" | head -2 | cut -c1-300
 done
 git -C /repo checkout -- .
 rm -f /repo/ascent_macro/examples/scratchpad.rs
+[ -n "$SEED_HOLD" ] || rm -f /tmp/seed/REPO_BUSY
